@@ -81,7 +81,7 @@ def run(ctx):
             x = [c for c in x if c < 256]
         rjobs.append((base + i + 1, api, x, api not in ("redirect", "conn_reason", "wsgi_reason") and rng.random() < 0.3))
     traces = [t for t in framework.pool_map(_job, jobs + rjobs) if t]
-    ctx.validate(FAM, "Trace_HeaderInject", "Trace_HeaderInject.cfg", traces, label="s2c+c2s", sig_fn=drv.with_kind(sig_of, base + 1))
+    ctx.validate(FAM, "Trace_HeaderInject", "Trace_HeaderInject.cfg", traces, label="s2c+c2s", sig_fn=drv.with_kind(sig_of, base + 1), timeout=900)
     ctx.cov["rule"] = ("cases: 14 API paths (incl. reason phrase through a direct write_headers call and through WSGIContainer) x every string of length <= %d over the class alphabet (NUL, C0, HTAB, LF, CR, SP, "
                        "separators, VCHAR, DEL, C1, latin-1) plus one special code point (incl. U+010A, U+010D, U+2028) at the "
                        "start/middle/end of a benign string; plus seeded random strings up to 60 code points with classic "
@@ -95,7 +95,7 @@ def replay(ctx, rec):
         print("specification-level violation; rerun ./check C07")
         return 1
     t2 = drv.inj_trace(t["id"], t["cfg"]["api"], t["cfg"]["x"], t["cfg"].get("flush_first", False))
-    v = ctx.validate(FAM, "Trace_HeaderInject", "Trace_HeaderInject.cfg", [t2], label="replay", sig_fn=sig_of, shards=1)
+    v = ctx.validate(FAM, "Trace_HeaderInject", "Trace_HeaderInject.cfg", [t2], label="replay", sig_fn=sig_of, shards=1, timeout=900)
     bad = v[t2["id"]]
     ob = t2["ev"][1]["obs"]
     print("replay: api=%s x=%r raised=%s" % (t["cfg"]["api"], "".join(map(chr, t["cfg"]["x"])), t2["ev"][0]["obs"]))
